@@ -111,8 +111,13 @@ template <typename G> struct T_fn_future { using type = cocls::awaiter::resume_f
     template struct Steal<T_awaiting<G>, &G::promise_type::_awaiting>;       \
     template struct Steal<T_fn_sync<G>, &G::promise_type::resume_fn_sync>;   \
     template struct Steal<T_fn_future<G>, &G::promise_type::resume_fn_future>;
+// GEN_NO_PRIVATE: fallback build without the probes of the PRIVATE hand-over record (used when a change of the
+// record's representation keeps the full harness from compiling): the record is then left out of the projection on both
+// sides and only the public observations (values, end/exception indications, counters, allocations) are compared.
+#ifndef GEN_NO_PRIVATE
 STEAL_ALL(G0)
 STEAL_ALL(G1)
+#endif
 
 struct AwProbe : cocls::awaiter {
     static resume_fn fn_of(const cocls::awaiter &a) { return a.*(&AwProbe::_resume_fn); }
@@ -590,6 +595,7 @@ struct World {
         m.set("par", par_live);
         if (sync_so_far()) m.set("allocs", g_lib_allocs.load() - alloc_base);
         J pr = J::map();
+#ifndef GEN_NO_PRIVATE
         if (gen) {
             promise_type &p = P();
             cocls::awaiter *caller = p.*Stolen<T_caller<G>>::value;
@@ -613,6 +619,7 @@ struct World {
             // public observers must agree with the record
             if (gen->done() != (p.*Stolen<T_done<G>>::value) || bool(*gen) == gen->done()) m.set("done_mismatch", true);
         }
+#endif
         m.set("pr", pr);
         if (!body_error.empty()) m.set("body_error", body_error);
         if (!consumer_error.empty()) m.set("consumer_error", consumer_error);
